@@ -720,6 +720,31 @@ def _name_counter_probe_inproc():
     return None
 
 
+def _copy_noise_probe(s, rng):
+    import copy as _copy
+    rpy()
+    X = xdata(1, 6, 1)
+    how = rng.choice(["Node.copy", "deepcopy"])
+
+    def mk(tag):
+        return _mk(s, tag, fb=False, noise_rc=0.2, noise_in=0.1)
+    try:
+        ref = mk("cnr")
+        want = sha(ref.run(X))
+        a = mk("cna")
+        a.initialize(X[:1])
+        c = a.copy(name=uname("cnc")) if how == "Node.copy" else _copy.deepcopy(a)
+        c.run(X)                          # the copy is used first
+        got = sha(a.run(X))
+    except Exception as e:  # noqa: BLE001
+        return _viol("copy:noise:exception", "copying a seeded noisy reservoir and running both raises %r" % (e,), {"check": "copy-noise", "seed": s, "how": how})
+    if got != want:
+        return _viol("copy:noise-generator-shared", "Reservoir(seed=%d, noise>0): after its %s copy has been run, the original's noisy trajectory is no longer "
+                     "the one a fresh reservoir with the same seed produces (copy and original draw from one generator)" % (s, how),
+                     {"check": "copy-noise", "seed": s, "how": how}, want, got)
+    return None
+
+
 def _sklearn_shared_hypers_probe(s1, s2):
     import reservoirpy
     from reservoirpy.nodes import ScikitLearnNode
@@ -935,6 +960,12 @@ def oracle(ctx, scale=1):
         # (b4) two ScikitLearnNodes built from ONE model_hypers dict: each must take its random state from the global seed in force
         # when IT is built (the node built second equals the same node built alone), and the caller's dict is left alone
         v = _sklearn_shared_hypers_probe(rng.choice(SEEDS), rng.choice(SEEDS))
+        ev += 2
+        if v:
+            viol.append(v)
+        # (b5) a copy of a seeded noisy reservoir (Node.copy / deepcopy) that is run first: the original still produces the trajectory
+        # its seed determines (the copy owns its generator)
+        v = _copy_noise_probe(rng.choice(SEEDS), rng)
         ev += 2
         if v:
             viol.append(v)
